@@ -1,496 +1,396 @@
 """C04 -- run verdict and stop control are consistent with the outcomes reported."""
 
-import ast
-
-from ..astutil import FUNC_TYPES, attr_chain, dotted, norm, walk_shallow
-from ..cfg import live_nodes, node_calls
+from ..absint import FALSE, NONE, TRUE
 from ..loader import AnalysisError
-from ..symbols import instance_attrs_assigned
-from .common import REAL, cfg_of, nodes_calling, own_method, str_const
+from ..objects import is_inst
+from . import resultmodel as rm
+from .common import REAL, own_method
 
 EXPLANATION = (
-    "Sibling-agreement and plumbing rules over every result class of testtools.testresult.real "
-    "and testtools.run: R-VERDICT-LISTS (a wasSuccessful that reads outcome lists must read every "
-    "list a failing outcome of the same class appends to, and no list a passing outcome appends "
-    "to; delegating implementations must delegate to all wrapped results), R-SUMMARY-AGREES "
-    "(TextTestResult.stopTestRun chooses OK/FAILED by wasSuccessful(), sums exactly the lists "
-    "wasSuccessful reads, renders each of them, prints testsRun), R-EXIT-STATUS (exit status "
-    "derived only from not wasSuccessful(); the runner brackets startTestRun/stopTestRun with "
-    "finally and passes failfast on), R-FAILFAST-SET (the outcome methods that stop under failfast "
-    "are exactly addError/addFailure/addUnexpectedSuccess in every class that consults failfast; "
-    "the stream trigger set equals the statuses emitted for those methods), R-CONTROL-PLUMBED "
-    "(stop/shouldStop/failfast of every adapter and multiplexer reach the wrapped result(s)), "
-    "R-RUN-RESET (every collection an outcome appends to is re-initialised by startTestRun; "
-    "failfast and tb_locals survive it). Per-call invariants; histories follow by induction."
+    "Client programs of the result classes, given as source and run as written (ttsa.rules.resultmodel): a scenario builds a "
+    "stack of testtools' own result objects (TestResult, TextTestResult, ExtendedToOriginalDecorator, TestResultDecorator, "
+    "Tagger, MultiTestResult, ThreadsafeForwardingResult, two-level stacks of them, ExtendedToOriginalDecorator over a plain "
+    "2.6-style result, ExtendedToStreamDecorator over StreamSummary), reports a history and returns what a client reads back. "
+    "Every class involved is interpreted by ttsa.objects -- constructors, properties and their setters, __getattr__ delegation, "
+    "dispatch through getattr(result, message) -- and unittest.TestResult, where the lists and flags live, in the standard "
+    "library's own source. R-VERDICT-LISTS: for every stack and each of the six outcomes, wasSuccessful() of the wrapper and of "
+    "the wrapped result is False exactly after an error, a failure or an unexpected success, also when a passing test follows. "
+    "R-RUN-RESET: a new startTestRun makes the verdict True again, empties every outcome collection and the stop flag, and "
+    "keeps failfast. R-FAILFAST-SET: with failfast set -- on the target before wrapping or on the wrapper afterwards -- "
+    "shouldStop of wrapper and target is False after startTest and True after the outcome exactly for the three failing "
+    "outcomes. R-CONTROL-PLUMBED: stop() on the wrapper sets shouldStop on every wrapped result and on the wrapper. "
+    "R-SUMMARY-AGREES: TextTestResult's writes to its stream after histories with 0..3 problems: the count in the 'Ran' line, "
+    "OK iff wasSuccessful(), FAILED (failures=N) with N the number of problems, one section per problem. R-EXIT-STATUS: "
+    "TestToolsTestRunner.run builds its result with the runner's failfast, brackets test.run(result) with startTestRun / "
+    "stopTestRun also when the test raises, and returns what test.run returned; TestProgram.runTests exits with "
+    "`not result.wasSuccessful()` of the result the runner returned, exactly when self.exit is set."
 )
 
-FAILING = {"addError", "addFailure", "addUnexpectedSuccess"}
-PASSING = {"addSuccess", "addSkip", "addExpectedFailure"}
-VERDICT_LISTS = {"errors", "failures", "unexpectedSuccesses"}
+STACKS = {
+    # name -> (lines that bind `target` and `r`, names of further wrapped results)
+    "TestResult": ("target = TestResult()\n    r = target", ()),
+    "TextTestResult": ("target = TextTestResult(stream)\n    r = target", ()),
+    "ExtendedToOriginalDecorator": ("target = TestResult()\n    r = ExtendedToOriginalDecorator(target)", ()),
+    "TestResultDecorator": ("target = TestResult()\n    r = TestResultDecorator(target)", ()),
+    "Tagger": ("target = TestResult()\n    r = Tagger(target, {'a-tag'}, set())", ()),
+    "MultiTestResult": ("target = TestResult()\n    other = TestResult()\n    r = MultiTestResult(target, other)", ("other",)),
+    "ThreadsafeForwardingResult": ("target = TestResult()\n    r = ThreadsafeForwardingResult(target, semaphore)", ()),
+    "Tagger over MultiTestResult": ("target = TestResult()\n    other = TestResult()\n    r = Tagger(MultiTestResult(target, other), set(), set())", ("other",)),
+    "ExtendedToOriginalDecorator over TestResultDecorator": ("target = TestResult()\n    r = ExtendedToOriginalDecorator(TestResultDecorator(target))", ()),
+    "ThreadsafeForwardingResult over MultiTestResult": ("target = TestResult()\n    other = TestResult()\n    r = ThreadsafeForwardingResult(MultiTestResult(target, other), semaphore)", ("other",)),
+}
+ARGS = dict(test=rm.TEST, err=rm.ERR, stream=("wobj", "stream"), semaphore=("wobj", "semaphore"))
+HEAD = "def scenario(test, err, stream, semaphore):\n    "
 
 
-def self_attrs_loaded(func):
-    out = set()
-    for n in ast.walk(func):
-        if isinstance(n, ast.Attribute) and isinstance(n.ctx, ast.Load):
-            ch = attr_chain(n)
-            if ch and ch[0] == "self" and len(ch) == 2:
-                out.add(ch[1])
-    return out
+def _bools(v, n):
+    """The n booleans of a returned tuple, or None."""
+    if isinstance(v, tuple) and v[:1] == ("tuple",) and len(v) == n + 1 and all(x in (TRUE, FALSE) for x in v[1:]):
+        return [x == TRUE for x in v[1:]]
+    return None
 
 
-def self_lists_appended(func):
-    """self.<X> collections a function adds to (append / setdefault / += / [k]=)."""
-    out = set()
-    for n in ast.walk(func):
-        if isinstance(n, ast.Call) and isinstance(n.func, ast.Attribute) and n.func.attr in ("append", "extend", "add", "setdefault", "insert"):
-            ch = attr_chain(n.func.value)
-            if ch and ch[0] == "self" and len(ch) == 2:
-                out.add(ch[1])
-    return out
+def _run(ctx, body, **kw):
+    sc = rm.Scenario(ctx, **kw)
+    return sc.run(HEAD + body, **ARGS)
 
 
-def calls_named(func, name):
-    return [c for c in walk_shallow(func, include_self=False) if isinstance(c, ast.Call) and dotted(c.func) == name]
+def check_verdicts(ctx, anchor):
+    stacks = STACKS if ctx.tier == "thorough" else {k: v for k, v in STACKS.items() if "over" not in k or k.startswith("Tagger")}
+    for name, (build, others) in stacks.items():
+        reads = ", ".join(["r.wasSuccessful()", "target.wasSuccessful()"] + [f"{o}.wasSuccessful()" for o in others])
+        n = 2 + len(others)
+        for oc in rm.OUTCOMES:
+            body = (f"{build}\n    r.startTestRun()\n    r.startTest(test)\n    {rm.outcome_call(oc)}\n    r.stopTest(test)\n    first = ({reads})\n"
+                    f"    r.startTest(test)\n    r.addSuccess(test)\n    r.stopTest(test)\n    second = ({reads})\n    r.stopTestRun()\n    r.startTestRun()\n    third = ({reads})\n    return first + second + third\n")
+            res = _run(ctx, body)
+            failing = oc in rm.FAILING
+            problems, reset = set(), set()
+            for r in res:
+                got = _bools(r.value, 3 * n) if r.kind == "val" else None
+                if got is None:
+                    problems.add(f"the scenario {'raises ' + repr(r.value) if r.kind == 'exc' else 'reads back ' + repr(r.value)[:160]}")
+                    continue
+                who = ["the wrapper", "the wrapped result"] + [f"the other wrapped result" for _ in others]
+                for i, w in enumerate(who):
+                    if got[i] != (not failing):
+                        problems.add(f"after {oc}, wasSuccessful() of {w} is {got[i]}")
+                    if got[n + i] != (not failing):
+                        problems.add(f"after {oc} and then a passing test, wasSuccessful() of {w} is {got[n + i]}")
+                    if not got[2 * n + i]:
+                        reset.add(f"after {oc} in the previous run, wasSuccessful() of {w} is False right after the next startTestRun()")
+            ctx.check("R-VERDICT-LISTS", f"[{name}] wasSuccessful() after {oc}: {'False' if failing else 'True'}, for the wrapper and what it wraps", anchor, bool(res) and not problems,
+                      "; ".join(sorted(problems)) or "the scenario was not followed to its end", examined=len(res), construct=f"{REAL}:{name}::verdict after {oc}")
+            if failing:
+                ctx.check("R-RUN-RESET", f"[{name}] a new startTestRun() forgets the {oc} of the previous run", anchor, bool(res) and not reset and not any("raises" in p for p in problems),
+                          "; ".join(sorted(reset)) or "the scenario was not followed to its end", examined=len(res), construct=f"{REAL}:{name}::verdict reset after {oc}")
+    ctx.floor("R-VERDICT-LISTS", 30, "(stack, outcome) pairs")
 
 
-FAILFAST_IMPLEMENTERS = ("TestResult", "ExtendedToOriginalDecorator", "TestByTestResult")
+def check_failfast(ctx, anchor):
+    stacks = STACKS if ctx.tier == "thorough" else {k: v for k, v in STACKS.items() if "over" not in k}
+    for name, (build, others) in stacks.items():
+        lines = build.split("\n    ")
+        reads = ", ".join(["r.shouldStop", "target.shouldStop"] + [f"{o}.shouldStop" for o in others])
+        n = 2 + len(others)
+        for how in ("on the wrapped result, before wrapping", "on the wrapper, after wrapping"):
+            if name in ("TestResult", "TextTestResult") and how.startswith("on the wrapped"):
+                continue
+            setup = "\n    ".join(lines[:1] + ["target.failfast = True"] + [f"{o_}.failfast = True" for o_ in ()] + lines[1:]) if how.startswith("on the wrapped") else build + "\n    r.failfast = True"
+            problems = set()
+            n_res = 0
+            for oc in rm.OUTCOMES:
+                body = (f"{setup}\n    r.startTestRun()\n    r.startTest(test)\n    before = ({reads})\n    {rm.outcome_call(oc)}\n    after = ({reads})\n    r.stopTest(test)\n    return before + after\n")
+                res = _run(ctx, body)
+                n_res += len(res)
+                if not res:
+                    problems.add("the scenario was not followed to its end")
+                for r in res:
+                    got = _bools(r.value, 2 * n) if r.kind == "val" else None
+                    if got is None:
+                        problems.add(f"with {oc} the scenario {'raises ' + repr(r.value) if r.kind == 'exc' else 'reads back ' + repr(r.value)[:160]}")
+                        continue
+                    if any(got[:n]):
+                        problems.add(f"shouldStop is already True after startTest (before {oc})")
+                    # every wrapped result of a multiplexer had failfast only if it was set through the wrapper
+                    want = oc in rm.FAILING
+                    watch = [0, 1] if how.startswith("on the wrapped") else list(range(n))
+                    for i in watch:
+                        if got[n + i] != want:
+                            problems.add(f"after {oc}, shouldStop of {'the wrapper' if i == 0 else 'the wrapped result' if i == 1 else 'the other wrapped result'} is {got[n + i]}; expected {want}")
+            known = name.startswith("ThreadsafeForwardingResult") and how.startswith("on the wrapper")
+            if known:
+                # (recorded finding: the forwarder keeps a failfast of its own)
+                ctx.check("R-CONTROL-PLUMBED", f"[{name}; failfast set {how}] the run stops at the first error / failure / unexpected success", anchor, not problems,
+                          "; ".join(sorted(problems)), examined=n_res, construct=f"{REAL}:ThreadsafeForwardingResult::failfast")
+            else:
+                ctx.check("R-FAILFAST-SET", f"[{name}; failfast set {how}] shouldStop becomes True at the first error / failure / unexpected success, and not earlier", anchor, not problems,
+                          "; ".join(sorted(problems)), examined=n_res, construct=f"{REAL}:{name}::failfast {how}")
+    # a 2.6-style result below ExtendedToOriginalDecorator: the decorator keeps failfast and shouldStop itself
+    old_style_lacks = {("plain", a) for a in ("failfast", "shouldStop", "stop", "addSkip", "addExpectedFailure", "addUnexpectedSuccess", "startTestRun", "stopTestRun", "tags", "time", "current_tags")}
+    problems = set()
+    n_res = 0
+    for oc in rm.OUTCOMES:
+        body = (f"r = ExtendedToOriginalDecorator(plain)\n    r.failfast = True\n    r.startTestRun()\n    r.startTest(test)\n    before = r.shouldStop\n    {rm.outcome_call(oc)}\n"
+                "    after = r.shouldStop\n    return (before, after)\n")
+        sc = rm.Scenario(ctx, lacks=old_style_lacks)
+        res = sc.run("def scenario(test, err, plain):\n    " + body, test=rm.TEST, err=rm.ERR, plain=("wobj", "plain"))
+        n_res += len(res)
+        for r in res:
+            got = _bools(r.value, 2) if r.kind == "val" else None
+            if got is None:
+                problems.add(f"with {oc} the scenario {'raises ' + repr(r.value) if r.kind == 'exc' else 'reads back ' + repr(r.value)[:160]}")
+            elif got != [False, oc in rm.FAILING]:
+                problems.add(f"shouldStop before / after {oc} is {got}; expected [False, {oc in rm.FAILING}]")
+    ctx.check("R-FAILFAST-SET", "[ExtendedToOriginalDecorator over a 2.6-style result] failfast set on the decorator stops at the first failing outcome", anchor, n_res > 0 and not problems,
+              "; ".join(sorted(problems)) or "no path", examined=n_res, construct=f"{REAL}:ExtendedToOriginalDecorator::failfast over an old-style result")
+    # ExtendedToStreamDecorator: failfast is a StreamFailFast among its targets
+    problems = set()
+    n_res = 0
+    for oc in rm.OUTCOMES:
+        body = (f"target = StreamSummary()\n    r = ExtendedToStreamDecorator(target)\n    r.failfast = True\n    r.startTestRun()\n    r.startTest(test)\n    before = r.shouldStop\n    {rm.outcome_call(oc, details=True)}\n"
+                "    after = r.shouldStop\n    r.stopTest(test)\n    return (before, after, r.wasSuccessful(), target.wasSuccessful())\n")
+        sc = rm.Scenario(ctx, oracle=lambda n_, pos, kw: [("val", ("const", "a.test.id"))] if n_ == "test.id" else None)
+        res = sc.run("def scenario(test, err):\n    " + body, test=rm.TEST, err=rm.ERR)
+        n_res += len(res)
+        for r in res:
+            got = _bools(r.value, 4) if r.kind == "val" else None
+            want = [False, oc in rm.FAILING, oc not in rm.FAILING, oc not in rm.FAILING]
+            if got is not None and oc == "addUnexpectedSuccess":
+                # (the stream summary's verdict "follows Python" for unexpected successes -- pinned by the repository's own contract
+                #  tests; the property asks the stream verdict to be false for failed or incomplete tests only)
+                got, want = got[:2], want[:2]
+            if got is None:
+                problems.add(f"with {oc} the scenario {'raises ' + repr(r.value) if r.kind == 'exc' else 'reads back ' + repr(r.value)[:160]}")
+            elif got != want:
+                problems.add(f"(shouldStop before, after, wasSuccessful of the decorator, of the stream summary) around {oc} is {got}; expected {want}")
+    ctx.check("R-FAILFAST-SET", "[ExtendedToStreamDecorator over StreamSummary] failfast stops at the first failing outcome; the verdicts follow the outcomes", anchor, n_res > 0 and not problems,
+              "; ".join(sorted(problems)) or "no path", examined=n_res, construct=f"{REAL}:ExtendedToStreamDecorator::failfast")
+    ctx.floor("R-FAILFAST-SET", 8, "stacks")
+
+
+def check_stop(ctx, anchor):
+    for name, (build, others) in STACKS.items():
+        reads = ", ".join(["r.shouldStop", "target.shouldStop"] + [f"{o}.shouldStop" for o in others])
+        n = 2 + len(others)
+        body = f"{build}\n    r.startTestRun()\n    before = ({reads})\n    r.stop()\n    after = ({reads})\n    r.startTestRun()\n    again = ({reads})\n    return before + after + again\n"
+        res = _run(ctx, body)
+        problems, reset = set(), set()
+        for r in res:
+            got = _bools(r.value, 3 * n) if r.kind == "val" else None
+            if got is None:
+                problems.add(f"the scenario {'raises ' + repr(r.value) if r.kind == 'exc' else 'reads back ' + repr(r.value)[:160]}")
+                continue
+            if any(got[:n]):
+                problems.add("shouldStop is True before stop() was called")
+            if not all(got[n:2 * n]):
+                problems.add(f"after stop() on the wrapper, shouldStop of (wrapper, wrapped result{', other wrapped result' * len(others)}) is {got[n:2 * n]}: suites asking those would go on dispatching tests")
+            if any(got[2 * n:]):
+                reset.add(f"after stop() and a new startTestRun(), shouldStop of (wrapper, wrapped result{', other' * len(others)}) is {got[2 * n:]}: the new run would not start")
+        ctx.check("R-CONTROL-PLUMBED", f"[{name}] stop() reaches the wrapper and every wrapped result", anchor, bool(res) and not problems, "; ".join(sorted(problems)) or "no path",
+                  examined=len(res), construct=f"{REAL}:{name}::stop")
+        ctx.check("R-RUN-RESET", f"[{name}] startTestRun() clears a stop requested in the previous run", anchor, bool(res) and not reset and not problems, "; ".join(sorted(reset | problems)) or "no path",
+                  examined=len(res), construct=f"{REAL}:{name}::stop reset")
+    # over a 2.6-style result: stop() is kept by the decorator (there is nowhere to forward it)
+    old_style_lacks = {("plain", a) for a in ("failfast", "shouldStop", "stop")}
+    sc = rm.Scenario(ctx, lacks=old_style_lacks)
+    res = sc.run("def scenario(plain):\n    r = ExtendedToOriginalDecorator(plain)\n    before = r.shouldStop\n    r.stop()\n    return (before, r.shouldStop)\n", plain=("wobj", "plain"))
+    bad = [repr(r.value)[:120] for r in res if r.kind != "val" or _bools(r.value, 2) != [False, True]]
+    ctx.check("R-CONTROL-PLUMBED", "[ExtendedToOriginalDecorator over a 2.6-style result] stop() is remembered by the decorator", anchor, bool(res) and not bad,
+              f"(shouldStop before, after stop()) is {bad}; expected (False, True)", examined=len(res), construct=f"{REAL}:ExtendedToOriginalDecorator::stop over an old-style result")
+
+
+def check_reset(ctx, anchor):
+    for name in ("TestResult", "TextTestResult"):
+        build = STACKS[name][0]
+        body = (f"{build}\n    r.failfast = True\n    r.startTestRun()\n    r.startTest(test)\n    r.addError(test, err)\n    r.addFailure(test, err)\n    r.addSkip(test, 'a reason')\n"
+                "    r.addExpectedFailure(test, err)\n    r.addUnexpectedSuccess(test)\n    r.stopTest(test)\n    r.stopTestRun()\n    r.startTestRun()\n"
+                "    return (len(r.errors), len(r.failures), len(r.skip_reasons), len(r.expectedFailures), len(r.unexpectedSuccesses), r.testsRun, r.failfast, r.shouldStop)\n")
+        res = _run(ctx, body)
+        problems = set()
+        want = ("tuple",) + (("const", 0),) * 6 + (TRUE, FALSE)
+        for r in res:
+            if r.kind != "val" or r.value != want:
+                problems.add(f"after a run with every kind of outcome and a new startTestRun(), (errors, failures, skip reasons, expected failures, unexpected successes, testsRun, failfast, shouldStop) is "
+                             f"{r.value!r}; expected all collections empty, no test counted, failfast still True, shouldStop False")
+        ctx.check("R-RUN-RESET", f"[{name}] startTestRun() empties every outcome collection and the counters; failfast survives", anchor, bool(res) and not problems,
+                  "; ".join(sorted(problems))[:700] or "no path", examined=len(res), construct=f"{REAL}:{name}::collections reset")
+
+
+def check_more(ctx, anchor):
+    """Scenarios in which the wrapped results differ from each other, or lack part of the protocol."""
+    # a multiplexer's verdict is the conjunction of the verdicts of what it wraps
+    body = ("target = TestResult()\n    other = TestResult()\n    other.startTest(test)\n    other.addFailure(test, err)\n    other.stopTest(test)\n    r = MultiTestResult(target, other)\n"
+            "    a = (r.wasSuccessful(), target.wasSuccessful(), other.wasSuccessful())\n    r2 = MultiTestResult(target, TestResult())\n    return a + (r2.wasSuccessful(),)\n")
+    res = _run(ctx, body)
+    bad = [repr(r.value)[:120] for r in res if r.kind != "val" or _bools(r.value, 4) != [False, True, False, True]]
+    ctx.check("R-VERDICT-LISTS", "[MultiTestResult] wasSuccessful() is True only if every wrapped result is successful", anchor, bool(res) and not bad,
+              f"with one failed and one successful wrapped result, (multiplexer, first, second, a multiplexer over successful ones) say {bad}; expected (False, True, False, True)", examined=len(res),
+              construct=f"{REAL}:MultiTestResult::verdict is the conjunction")
+    # a result that knows failfast but has no addUnexpectedSuccess: the fallback (a failure) still stops the run
+    lacks = {("plain", "addUnexpectedSuccess")}
+    sc = rm.Scenario(ctx, lacks=lacks, attrs={"self": ("self",), "plain.failfast": TRUE, "test.failureException": ("excclass", "AssertionError")},
+                     oracle=lambda n_, pos, kw: [("exc", ("exc", "AssertionError", "test.fail"))] if n_ == "test.fail" else None)
+    res = sc.run("def scenario(test, plain):\n    r = ExtendedToOriginalDecorator(plain)\n    r.startTest(test)\n    r.addUnexpectedSuccess(test)\n    r.stopTest(test)\n    return None\n", test=rm.TEST, plain=("wobj", "plain"))
+    problems = set()
+    for r in res:
+        got = [n for n, pos, kw in rm.calls(r, "plain.")]
+        if got.count("stop") < 1 or got.count("addFailure") != 1 or (got.index("stop") < got.index("addFailure") if "stop" in got and "addFailure" in got else False):
+            problems.add(f"the result receives {got}; expected the unexpected success as one failure and, failfast being set on it, stop() after that")
+    ctx.check("R-FAILFAST-SET", "[ExtendedToOriginalDecorator over a result with failfast but without addUnexpectedSuccess] the unexpected success stops the run", anchor, bool(res) and not problems,
+              "; ".join(sorted(problems)) or "no path", examined=len(res), construct=f"{REAL}:ExtendedToOriginalDecorator.addUnexpectedSuccess::failfast of the wrapped result")
+    # a foreign result that has the whole protocol and failfast set: the decorator stops it at each failing outcome, and only then
+    problems = set()
+    n_res = 0
+    for oc in rm.OUTCOMES:
+        sc = rm.Scenario(ctx, attrs={"self": ("self",), "plain.failfast": TRUE})
+        res = sc.run(f"def scenario(test, err, plain):\n    r = ExtendedToOriginalDecorator(plain)\n    r.startTest(test)\n    {rm.outcome_call(oc)}\n    r.stopTest(test)\n    return None\n",
+                     test=rm.TEST, err=rm.ERR, plain=("wobj", "plain"))
+        n_res += len(res)
+        for r in res:
+            got = [n for n, pos, kw in rm.calls(r, "plain.")]
+            if (got.count("stop") >= 1) != (oc in rm.FAILING) or got.count(oc) != 1:
+                problems.add(f"with {oc} the result receives {got}; expected the outcome once and stop() {'after it' if oc in rm.FAILING else 'not at all'}")
+    ctx.check("R-FAILFAST-SET", "[ExtendedToOriginalDecorator over a foreign result with failfast set] stop() follows exactly the failing outcomes", anchor, n_res > 0 and not problems,
+              "; ".join(sorted(problems)) or "no path", examined=n_res, construct=f"{REAL}:ExtendedToOriginalDecorator::failfast of a foreign result")
+    # the stream summary forgets the previous run as well
+    body = ("s = StreamSummary()\n    s.startTestRun()\n    s.status(test_id='a', test_status='uxsuccess')\n    s.status(test_id='b', test_status='fail')\n    s.status(test_id='c', test_status='skip')\n"
+            "    s.status(test_id='d', test_status='xfail')\n    s.stopTestRun()\n    first = (len(s.errors), len(s.failures), len(s.unexpectedSuccesses), len(s.skipped), len(s.expectedFailures), s.testsRun)\n"
+            "    s.startTestRun()\n    return first + (len(s.errors), len(s.failures), len(s.unexpectedSuccesses), len(s.skipped), len(s.expectedFailures), s.testsRun, s.wasSuccessful())\n")
+    sc = rm.Scenario(ctx)
+    res = sc.run("def scenario():\n    " + body)
+    problems = set()
+    for r in res:
+        v = r.value
+        if r.kind != "val" or not (isinstance(v, tuple) and len(v) == 14):
+            problems.add(f"the scenario {'raises ' + repr(v) if r.kind == 'exc' else 'reads back ' + repr(v)[:200]}")
+        elif v[7:] != (("const", 0),) * 6 + (TRUE,):
+            problems.add(f"after a run with a failure, an unexpected success, a skip and an expected failure (counts {v[1:7]!r}) a new startTestRun() leaves (errors, failures, unexpected successes, skipped, "
+                         f"expected failures, testsRun, wasSuccessful) = {v[7:]!r}; expected everything empty and True")
+    ctx.check("R-RUN-RESET", "[StreamSummary] startTestRun() empties every outcome list and the counter", anchor, bool(res) and not problems, "; ".join(sorted(problems))[:700] or "no path",
+              examined=len(res), construct=f"{REAL}:StreamSummary::collections reset")
+
+
+def check_summary(ctx, anchor):
+    histories = [
+        ("no test", [], 0),
+        ("one passing test", ["addSuccess"], 0),
+        ("an error and a passing test", ["addError", "addSuccess"], 1),
+        ("a failure", ["addFailure"], 1),
+        ("an unexpected success", ["addUnexpectedSuccess"], 1),
+        ("a skip and an expected failure", ["addSkip", "addExpectedFailure"], 0),
+        ("an error, a failure and an unexpected success", ["addError", "addFailure", "addUnexpectedSuccess"], 3),
+    ]
+    for label, outcomes, n_problems in histories:
+        body = "r = TextTestResult(stream)\n    r.startTestRun()\n" + "".join(f"    r.startTest(test)\n    {rm.outcome_call(oc)}\n    r.stopTest(test)\n" for oc in outcomes) + "    r.stopTestRun()\n    return r.wasSuccessful()\n"
+        res = _run(ctx, body, oracle=lambda n_, pos, kw: [("val", ("const", "a.test.id"))] if n_ == "test.id" else None)
+        problems = set()
+        for r in res:
+            if r.kind != "val" or r.value not in (TRUE, FALSE):
+                problems.add(f"the scenario {'raises ' + repr(r.value) if r.kind == 'exc' else 'reads back ' + repr(r.value)[:100]}")
+                continue
+            ok = r.value == TRUE
+            writes = [pos[0] if pos else None for n_, pos, kw in rm.calls(r, "stream.") if n_ == "write"]
+            texts = [w[1] for w in writes if isinstance(w, tuple) and w[:1] == ("const",) and isinstance(w[1], str)]
+            joined = "".join(texts)
+            ran = [w for w in writes if isinstance(w, tuple) and w[:1] == ("fmt",) and "Ran %d test" in str(w[1])]
+            if len(ran) != 1 or not (isinstance(ran[0][2], tuple) and ran[0][2][:2] == ("tuple", ("const", len(outcomes)))):
+                problems.add(f"the 'Ran N tests' line is written {len(ran)} time(s) with {ran[0][2][1] if ran and isinstance(ran[0][2], tuple) and len(ran[0][2]) > 1 else '?'}; expected once with {len(outcomes)}")
+            if ("OK" in joined) != ok or ("FAILED (" in joined) != (not ok):
+                problems.add(f"wasSuccessful() is {ok} but the summary says {'OK' if 'OK' in joined else ''}{' FAILED' if 'FAILED (' in joined else ''}")
+            if not ok and f"failures={n_problems}" not in joined:
+                problems.add(f"the failure total written is {[t for t in texts if t.startswith('failures=')]}; expected failures={n_problems}")
+            def text(w):
+                parts = w[1:] if isinstance(w, tuple) and w[:1] == ("concat",) else (w,)
+                return "".join(p[1] for p in parts if isinstance(p, tuple) and p[:1] == ("const",) and isinstance(p[1], str))
+            sections = [w for w in writes if any(label in text(w) for label in ("ERROR: ", "FAIL: ", "UNEXPECTED SUCCESS: "))]
+            if len(sections) != n_problems:
+                problems.add(f"{len(sections)} problem section(s) are written; expected one for each of the {n_problems} problems")
+            if ok != (n_problems == 0):
+                problems.add(f"wasSuccessful() is {ok} after {n_problems} problem(s)")
+        ctx.check("R-SUMMARY-AGREES", f"[{label}] the summary written by stopTestRun agrees with wasSuccessful() and the outcomes", anchor, bool(res) and not problems,
+                  "; ".join(sorted(problems))[:800] or "no path", examined=len(res), construct=f"{REAL}:TextTestResult.stopTestRun::summary {label}")
+    ctx.floor("R-SUMMARY-AGREES", 5, "histories")
+
+
+def check_exit_status(ctx):
+    RUN = "testtools.run"
+    from .. import effects
+    classes = ctx.classes
+    rt = own_method(ctx, RUN, "TestProgram", "runTests")
+    tp = classes.get(RUN, "TestProgram")
+    RUNNER, RESULT, SUITE = ("wobj", "runner"), ("wobj", "the_result"), ("wobj", "suite")
+    problems = []
+    for exit_flag in (TRUE, FALSE):
+        for verdict in (TRUE, FALSE):
+            def oracle(n, pos, kw, verdict=verdict):
+                if n == "runner.run":
+                    return [("val", RESULT)]
+                if n == "the_result.wasSuccessful":
+                    return [("val", verdict)]
+                if n.startswith(("runner.", "the_result.", "suite.", "other_result.")):
+                    return [("val", NONE)]
+                return None
+            dom = effects.EffectDomain(classes, attrs={"self.exit": exit_flag, "self.test": SUITE, "self.catchbreak": FALSE}, track=lambda d: d == "sys.exit", oracle=oracle,
+                                       results={"self._get_runner": [RUNNER]}, raises={"sys.exit": [("exc", "SystemExit")]}, inline=False)
+            res = [r for r in effects.run(ctx, dom, rt, tp) if not (r.kind == "exc" and r.value != ("exc", "SystemExit"))]
+            seen_ = {tuple((e[0], e[1]) for e in effects.calls(r, "sys.exit")) for r in res}
+            want = {(("sys.exit", (FALSE if verdict == TRUE else TRUE,)),)} if exit_flag == TRUE else {()}
+            if seen_ != want:
+                problems.append(f"exit={exit_flag}, the runner's result says wasSuccessful()={verdict}: sys.exit calls {sorted(map(repr, seen_))}")
+            if any([e[1] for e in effects.calls(r, "runner.run")] != [(SUITE,)] for r in res):
+                problems.append("the runner is not asked to run self.test exactly once")
+    ctx.check("R-EXIT-STATUS", "TestProgram.runTests exits with `not wasSuccessful()` of the result the runner returned, exactly when self.exit is set", rt, not problems,
+              "; ".join(problems), construct=f"{RUN}:TestProgram.runTests::exit")
+    # the runner itself
+    rr = own_method(ctx, RUN, "TestToolsTestRunner", "run")
+    src = "def scenario(test, stdout):\n    runner = TestToolsTestRunner(stdout=stdout, failfast=True)\n    return runner.run(test)\n"
+    RET = ("sym", "what test.run returned")
+    for raising in (False, True):
+        def oracle(n, pos, kw, raising=raising):
+            if n == "test.run":
+                return [("exc", ("exc", "KeyboardInterrupt"))] if raising else [("val", RET)]
+            return None
+        sc = rm.Scenario(ctx, module=RUN, accepting=("test", "stdout", "stream"), oracle=oracle, results={"unicode_output_stream": [("wobj", "stream")]}, track=lambda d: d == "unicode_output_stream")
+        res = sc.run(src, test=rm.TEST, stdout=("wobj", "stdout"))
+        problems = set()
+        for r in res:
+            log = r.state.get("ev.calls", ())
+            names = [e[0] for e in log]
+            runs = [e for e in log if e[0] == "test.run"]
+            if len(runs) != 1 or len(runs[0][1]) != 1 or not is_inst(runs[0][1][0]):
+                problems.add(f"test.run is called {len(runs)} time(s) with {[e[1] for e in runs]!r}; expected once with the result object")
+                continue
+            result = runs[0][1][0]
+            if r.state.get(f"inst.{result[1]}.failfast") != TRUE:
+                problems.add("the result handed to the test does not have the runner's failfast")
+            i = names.index("test.run")
+            before = [e for e in log[:i] if e[0] == "stream.write"]
+            after = [e for e in log[i + 1:] if e[0] == "stream.write" and isinstance(e[1][0], tuple) and e[1][0][:1] == ("fmt",) and "Ran %d" in str(e[1][0][1])]
+            if not before or len(after) != 1:
+                problems.add(f"the run is not bracketed by startTestRun / stopTestRun {'when the test raises' if raising else ''} (writes before: {len(before)}, summary lines after: {len(after)})")
+            if not raising and (r.kind != "val" or r.value != RET):
+                problems.add(f"run() returns {r.value!r} instead of what test.run(result) returned")
+            if raising and not (r.kind == "exc" and r.value[:2] == ("exc", "KeyboardInterrupt")):
+                problems.add("an exception of test.run does not propagate out of run()")
+        ctx.check("R-EXIT-STATUS", f"TestToolsTestRunner.run ({'the test raises' if raising else 'the test returns'}): a failfast result, bracketed by startTestRun / stopTestRun, run() gives back test.run's result",
+                  rr, bool(res) and not problems, "; ".join(sorted(problems)) or "no path", examined=len(res), construct=f"{RUN}:TestToolsTestRunner.run::{'raises' if raising else 'returns'}")
 
 
 def run(ctx):
-    ctx.rule("R-VERDICT-LISTS", "wasSuccessful reads exactly the lists failing outcomes of the class append to, or delegates to all wrapped results")
-    ctx.rule("R-SUMMARY-AGREES", "TextTestResult summary is driven by wasSuccessful() and the same three lists")
-    ctx.rule("R-EXIT-STATUS", "exit status = not wasSuccessful(); runner brackets the run and passes failfast")
-    ctx.rule("R-FAILFAST-SET", "outcomes that stop under failfast are exactly error, failure, unexpected success")
+    ctx.rule("R-VERDICT-LISTS", "wasSuccessful() of every result and wrapper is False exactly after an error, a failure or an unexpected success")
+    ctx.rule("R-SUMMARY-AGREES", "TextTestResult's summary (count, OK / FAILED, failure total, sections) agrees with wasSuccessful() and the outcomes")
+    ctx.rule("R-EXIT-STATUS", "exit status = not wasSuccessful(); the runner brackets the run and passes failfast")
+    ctx.rule("R-FAILFAST-SET", "under failfast shouldStop becomes True at the first error / failure / unexpected success and not earlier")
     ctx.rule("R-CONTROL-PLUMBED", "stop / shouldStop / failfast of adapters reach the wrapped results")
-    ctx.rule("R-RUN-RESET", "startTestRun re-initialises every collection outcomes append to; failfast/tb_locals survive")
-    classes = ctx.classes
-    ctx.repo.module(REAL)
-    real_classes = [c for c in classes.all if not c.external and c.module.name == REAL]
-
-    # ------------------------------------------------------------------ R-VERDICT-LISTS
-    # 'uxsuccess' is deliberately left out for the stream summary: the repository's own
-    # contract tests pin "ExtendedToStreamDecorator follows Python for uxsuccess handling"
-    # (StreamSummary.wasSuccessful stays true), and C04/C10 only demand that *failed or
-    # incomplete* tests make the stream verdict false.  Demanding more was a false alarm
-    # of the design round (former F-K) and has been dropped, see DESIGN.md section 6.
-    stream_handlers = {"fail": "failing", "uxsuccess": None, "unknown": "failing", "inprogress": "failing",
-                       "success": "passing", "skip": "passing", "xfail": "passing", "exists": "passing"}
-    for c in sorted(real_classes, key=lambda c: c.node.lineno):
-        f = c.methods.get("wasSuccessful")
-        if f is None:
-            continue
-        ctx.analysed(f)
-        delegates = [x for x in walk_shallow(f, include_self=False) if isinstance(x, ast.Call) and (
-            (isinstance(x.func, ast.Attribute) and x.func.attr == "wasSuccessful")
-            or (dotted(x.func) == "self._dispatch" and x.args and str_const(x.args[0]) == "wasSuccessful"))]
-        if delegates:
-            d = delegates[0]
-            name = norm(d.func)
-            ok = True
-            msg = ""
-            if dotted(d.func) == "self._dispatch":
-                # decided on an abstract run over two wrapped results and every combination of their verdicts
-                from .. import effects
-                from ..absint import FALSE as A_F, TRUE as A_T
-                bad = []
-                for v0 in (A_T, A_F):
-                    for v1 in (A_T, A_F):
-                        dom = effects.EffectDomain(classes, attrs={"self._results": ("tuple", ("wobj", "r0"), ("wobj", "r1"))},
-                                                   results={"r0.wasSuccessful": [v0], "r1.wasSuccessful": [v1]})
-                        outs = {(r.kind, r.value, tuple(e[0] for e in effects.calls(r))) for r in effects.run(ctx, dom, f, c)}
-                        want = ("val", A_T if (v0 == A_T and v1 == A_T) else A_F, ("r0.wasSuccessful", "r1.wasSuccessful"))
-                        if outs != {want}:
-                            bad.append(f"verdicts ({v0}, {v1}) -> {sorted(map(repr, outs))}")
-                ok = not bad
-                msg = "a multiplexer's verdict must be the conjunction of the verdicts of all its wrapped results, each asked once: " + "; ".join(bad)
-            ctx.check("R-VERDICT-LISTS", f"{c.name}.wasSuccessful delegates ({name})", f, ok, msg, construct=f"{REAL}:{c.name}.wasSuccessful::delegate")
-            continue
-        read = self_attrs_loaded(f)
-        # handlers of this class (through the MRO, in-repo only)
-        if c.name == "StreamSummary" or classes.get(REAL, "StreamSummary") in classes.mro(c):
-            init = c.own_method("__init__") or classes.resolve_method(c, "__init__")[1]
-            table = {}
-            for n in ast.walk(classes.get(REAL, "StreamSummary").own_method("__init__")):
-                if isinstance(n, ast.Dict):
-                    for k, v in zip(n.keys, n.values):
-                        if str_const(k) and dotted(v) and dotted(v).startswith("self."):
-                            table[str_const(k)] = dotted(v).split(".", 1)[1]
-            handlers = {}
-            for status, mname in table.items():
-                owner, hf = classes.resolve_method(c, mname)
-                if isinstance(hf, FUNC_TYPES):
-                    handlers[f"{mname} [{status}]"] = (stream_handlers.get(status), hf)
-        else:
-            handlers = {}
-            for m in sorted(FAILING | PASSING):
-                owner, hf = classes.resolve_method(c, m)
-                if isinstance(hf, FUNC_TYPES) and owner is not None and not owner.external:
-                    handlers[m] = ("failing" if m in FAILING else "passing", hf)
-        for hname, (kind, hf) in sorted(handlers.items()):
-            appended = self_lists_appended(hf)
-            if kind == "failing":
-                ok = bool(appended & read)
-                msg = (f"{c.name}.{hname} records a failing outcome in {sorted(appended) or 'no list'} but "
-                       f"{c.name}.wasSuccessful only reads {sorted(read & (VERDICT_LISTS | appended)) or sorted(read)}: the run stays 'successful'")
-            elif kind == "passing":
-                ok = not (appended & read)
-                msg = f"{c.name}.{hname} is a passing outcome but appends to {sorted(appended & read)}, which wasSuccessful reads"
-            else:
-                continue
-            ctx.check("R-VERDICT-LISTS", f"{c.name}.wasSuccessful vs {hname}", f, ok, msg,
-                      construct=f"{REAL}:{c.name}.wasSuccessful::{hname.split(' ')[0]}")
-    ctx.floor("R-VERDICT-LISTS", 14)
-
-    # ------------------------------------------------------------------ R-SUMMARY-AGREES
-    ttr = classes.get(REAL, "TextTestResult")
-    stop = own_method(ctx, REAL, "TextTestResult", "stopTestRun")
-    owner, ws = classes.resolve_method(ttr, "wasSuccessful")
-    verdict_lists = self_attrs_loaded(ws) & {"errors", "failures", "unexpectedSuccesses", "expectedFailures", "skipped"}
-    cfg = cfg_of(ctx, stop)
-    live = live_nodes(cfg)
-    T = f"{REAL}:TextTestResult.stopTestRun"
-    # OK/FAILED selected by wasSuccessful()
-    ok = False
-    for n in cfg.nodes:
-        if n.id in live and n.kind == "test" and isinstance(n.ast, ast.If) and norm(n.ast.test) in ("self.wasSuccessful()", "not self.wasSuccessful()"):
-            pos, neg = (n.ast.body, n.ast.orelse) if not norm(n.ast.test).startswith("not") else (n.ast.orelse, n.ast.body)
-            ptxt = " ".join(norm(s) for s in pos)
-            ntxt = " ".join(norm(s) for s in neg)
-            if "'OK" in ptxt and "FAILED" in ntxt and "FAILED" not in ptxt and "'OK" not in ntxt:
-                ok = True
-    ctx.check("R-SUMMARY-AGREES", "OK / FAILED arm chosen by wasSuccessful()", stop, ok,
-              "the OK/FAILED line is not selected by self.wasSuccessful()", construct=f"{T}::verdict-arm")
-    summed = set()
-    local_defs = {}
-    for n in walk_shallow(stop, include_self=False):
-        if isinstance(n, ast.Assign) and len(n.targets) == 1 and isinstance(n.targets[0], ast.Name):
-            local_defs.setdefault(n.targets[0].id, []).append(n.value)
-
-    def self_lists_in(expr, depth=0):
-        out = set()
-        for x in ast.walk(expr):
-            ch = attr_chain(x) if isinstance(x, ast.Attribute) else None
-            if ch and ch[0] == "self" and len(ch) == 2:
-                out.add(ch[1])
-            if isinstance(x, ast.Name) and isinstance(x.ctx, ast.Load) and depth < 3:
-                for v in local_defs.get(x.id, []):
-                    out |= self_lists_in(v, depth + 1)
-        return out
-
-    for c in ast.walk(stop):
-        if isinstance(c, ast.Call) and dotted(c.func) == "sum":
-            summed |= self_lists_in(c)
-    ctx.check("R-SUMMARY-AGREES", "failure total sums exactly the lists wasSuccessful reads", stop, summed == verdict_lists,
-              f"failure total sums {sorted(summed)} but wasSuccessful reads {sorted(verdict_lists)}", construct=f"{T}::failure-total")
-    rendered = set()
-    for c in walk_shallow(stop, include_self=False):
-        if isinstance(c, ast.Call) and dotted(c.func) == "self._show_list" and len(c.args) == 2:
-            ch = attr_chain(c.args[1])
-            if ch and ch[0] == "self":
-                rendered.add(ch[1])
-        if isinstance(c, ast.For):
-            ch = attr_chain(c.iter)
-            if ch and ch[0] == "self" and len(ch) == 2 and any(isinstance(w, ast.Call) and dotted(w.func) == "self.stream.write" for w in walk_shallow(c)):
-                rendered.add(ch[1])
-    ctx.check("R-SUMMARY-AGREES", "one section per problem for every verdict list", stop, verdict_lists <= rendered,
-              f"lists {sorted(verdict_lists - rendered)} are counted in the verdict but not rendered", construct=f"{T}::sections")
-    sl = own_method(ctx, REAL, "TextTestResult", "_show_list")
-    loops = [n for n in walk_shallow(sl, include_self=False) if isinstance(n, ast.For) and dotted(n.iter) == sl.args.args[2].arg]
-    ok = len(loops) == 1 and not any(isinstance(x, (ast.Break, ast.Continue, ast.Return)) for x in walk_shallow(loops[0])) and any(
-        isinstance(w, ast.Call) and dotted(w.func) == "self.stream.write" for w in walk_shallow(loops[0]))
-    ctx.check("R-SUMMARY-AGREES", "_show_list writes a section for every element", sl, ok, "_show_list skips elements", construct=f"{REAL}:TextTestResult._show_list::all")
-    count_ok = any(isinstance(n, ast.BinOp) and isinstance(n.op, ast.Mod) and isinstance(n.left, ast.Constant) and "Ran %d test" in str(n.left.value)
-                   and isinstance(n.right, ast.Tuple) and dotted(n.right.elts[0]) == "self.testsRun" for n in ast.walk(stop))
-    ctx.check("R-SUMMARY-AGREES", "test count printed is testsRun", stop, count_ok, "the 'Ran N tests' line does not print self.testsRun", construct=f"{T}::count")
-
-    # ------------------------------------------------------------------ R-EXIT-STATUS
-    RUN = "testtools.run"
-    rt = own_method(ctx, RUN, "TestProgram", "runTests")
-    from .. import effects
-    from ..absint import FALSE as A_F, TRUE as A_T
-    tp = classes.get(RUN, "TestProgram")
-    problems = []
-    for exit_flag in (A_T, A_F):
-        for verdict in (A_T, A_F):
-            dom = effects.EffectDomain(classes, attrs={"self.exit": exit_flag}, track=lambda d: d == "sys.exit",
-                                       results={"self.result.wasSuccessful": [verdict]}, raises={"sys.exit": [("exc", "SystemExit")]}, inline=False)
-            seen_ = {tuple((e[0], e[1]) for e in effects.calls(r, "sys.exit")) for r in effects.run(ctx, dom, rt, tp) if not (r.kind == "exc" and r.value != ("exc", "SystemExit"))}
-            want = {(("sys.exit", (A_F if verdict == A_T else A_T,)),)} if exit_flag == A_T else {()}
-            if seen_ != want:
-                problems.append(f"exit={exit_flag}, wasSuccessful()={verdict}: sys.exit calls {sorted(map(repr, seen_))}")
-    ctx.check("R-EXIT-STATUS", "exit status is not result.wasSuccessful()", rt, not problems,
-              "the process exit status is not `not result.wasSuccessful()` (or sys.exit is not called exactly when self.exit is set): " + "; ".join(problems),
-              construct=f"{RUN}:TestProgram.runTests::exit")
-    assigned = [n for n in walk_shallow(rt, include_self=False) if isinstance(n, ast.Assign) and dotted(n.targets[0]) == "self.result"
-                and isinstance(n.value, ast.Call) and isinstance(n.value.func, ast.Attribute) and n.value.func.attr == "run" and n.value.args and dotted(n.value.args[0]) == "self.test"]
-    ctx.check("R-EXIT-STATUS", "result is what the runner returned for self.test", rt, len(assigned) == 1, "self.result is not testRunner.run(self.test)", construct=f"{RUN}:TestProgram.runTests::result")
-    rr = own_method(ctx, RUN, "TestToolsTestRunner", "run")
-    rcfg = cfg_of(ctx, rr)
-    rlive = live_nodes(rcfg)
-    s_nodes = nodes_calling(rcfg, lambda c: dotted(c.func) == "result.startTestRun", rlive)
-    e_nodes = nodes_calling(rcfg, lambda c: dotted(c.func) == "result.stopTestRun", rlive)
-    t_nodes = nodes_calling(rcfg, lambda c: dotted(c.func) == "test.run", rlive)
-    ok = len(s_nodes) == 1 and bool(e_nodes) and len(t_nodes) == 1
-    esc = rcfg.escape_path(rcfg.after(s_nodes[0]), set(e_nodes)) if ok else None
-    ctx.check("R-EXIT-STATUS", "runner brackets the run with startTestRun / stopTestRun (finally)", rr, ok and esc is None,
-              "a path leaves the run after startTestRun without stopTestRun (the summary would not be printed)",
-              path=rcfg.describe_path(esc) if esc else None, construct=f"{RUN}:TestToolsTestRunner.run::bracket")
-    rets = [n for n in rcfg.nodes if n.id in rlive and n.kind == "return"]
-    ok = bool(rets) and all(isinstance(r.ast.value, ast.Call) and dotted(r.ast.value.func) == "test.run" and r.ast.value.args and dotted(r.ast.value.args[0]) == "result" for r in rets)
-    ctx.check("R-EXIT-STATUS", "runner returns what test.run(result) returned", rr, ok, "run() does not return test.run(result)", construct=f"{RUN}:TestToolsTestRunner.run::returns")
-    mk = [c for c in walk_shallow(rr, include_self=False) if isinstance(c, ast.Call) and dotted(c.func) == "TextTestResult"]
-    ok = len(mk) == 1 and any(k.arg == "failfast" and dotted(k.value) == "self.failfast" for k in mk[0].keywords)
-    ctx.check("R-EXIT-STATUS", "runner passes failfast to its result", rr, ok, "TextTestResult is built without failfast=self.failfast", construct=f"{RUN}:TestToolsTestRunner.run::failfast")
-    gi = own_method(ctx, RUN, "TestToolsTestRunner", "__init__")
-    ok = any(isinstance(n, ast.Assign) and dotted(n.targets[0]) == "self.failfast" and dotted(n.value) == "failfast" for n in walk_shallow(gi, include_self=False))
-    ctx.check("R-EXIT-STATUS", "runner keeps the failfast option", gi, ok, "TestToolsTestRunner.__init__ drops failfast", construct=f"{RUN}:TestToolsTestRunner.__init__::failfast")
-
-    # ------------------------------------------------------------------ R-FAILFAST-SET
-    from .. import effects
-    from ..absint import FALSE as A_FALSE, TRUE as A_TRUE
-
-    def stop_counts(c, func, failfast):
-        """Set of numbers of self.stop() calls over the normal paths of func, with the public self.failfast = failfast.
-        A private backing field (`_failfast`, used by adapters as a fallback when the wrapped result has no failfast
-        of its own) is tried with both values: the decision must follow the public attribute, not the private one."""
-        out = set()
-        for private in (A_TRUE, A_FALSE):
-            dom = effects.EffectDomain(classes, attrs={"self.failfast": failfast, "self._failfast": private}, track=lambda d: d == "self.stop")
-            params = [a.arg for a in func.args.args][1:]
-            argv = {p_: ("arg", p_) for p_ in params}
-            if "err" in argv and "details" in argv:
-                argv["details"] = "None"   # callers pass exactly one of err / details
-            res = effects.run(ctx, dom, func, c, argv)
-            out |= {len(effects.calls(r, "self.stop")) for r in res if r.kind == "val"}
-        return out
-
-    n_ff = 0
-    for c in sorted(real_classes, key=lambda c: c.node.lineno):
-        consult = []
-        for m in sorted(FAILING | PASSING):
-            f = c.methods.get(m)
-            if f is not None and any(n_ >= 1 for n_ in stop_counts(c, f, A_TRUE)):
-                consult.append(m)
-        # classes confirmed (by reading, on the pinned tree) to implement failfast in their outcome methods are checked
-        # whether or not they still consult the flag there: moving the stop elsewhere (stopTest, wasSuccessful ...) delays it
-        if not consult and c.name not in FAILFAST_IMPLEMENTERS:
-            continue
-        for m in sorted(FAILING | PASSING):
-            f = c.methods.get(m)
-            if f is None:
-                continue
-            on, off = stop_counts(c, f, A_TRUE), stop_counts(c, f, A_FALSE)
-            n_ff += 1
-            if m in FAILING:
-                ctx.check("R-FAILFAST-SET", f"{c.name}.{m} stops under failfast (and only then)", f, bool(on) and min(on) >= 1 and off <= {0},
-                          f"{c.name}.{m}: self.stop() is called {sorted(on)} time(s) on its returning paths with failfast set and {sorted(off)} with failfast unset: "
-                          "failfast would not stop at this failing outcome" if not (bool(on) and min(on) >= 1) else f"{c.name}.{m} stops although failfast is unset",
-                          construct=f"{REAL}:{c.name}.{m}::failfast-stop")
-            else:
-                ctx.check("R-FAILFAST-SET", f"{c.name}.{m} does not stop", f, on <= {0} and off <= {0},
-                          f"{c.name}.{m} is a passing outcome but requests a stop", construct=f"{REAL}:{c.name}.{m}::no-stop")
-    ctx.floor("R-FAILFAST-SET", 12, "outcome methods in classes consulting failfast")
-    # stream side: statuses emitted for the failing methods == StreamFailFast trigger set
-    etsd = classes.get(REAL, "ExtendedToStreamDecorator")
-    emitted = {}
-    for m in sorted(FAILING | PASSING):
-        owner, f = classes.resolve_method(etsd, m)
-        if not isinstance(f, FUNC_TYPES):
-            continue
-        for c in walk_shallow(f, include_self=False):
-            if isinstance(c, ast.Call) and dotted(c.func) == "self._convert" and len(c.args) >= 4:
-                emitted[m] = str_const(c.args[3])
-    ff = own_method(ctx, REAL, "StreamFailFast", "status")
-    sff = classes.get(REAL, "StreamFailFast")
-    trig = set()
-    for status in ("exists", "inprogress", "xfail", "uxsuccess", "success", "fail", "skip", None):
-        dom = effects.EffectDomain(classes, track=lambda d: d == "self.on_error")
-        argv = {a.arg: ("arg", a.arg) for a in ff.args.args[1:]}
-        argv["test_status"] = ("const", status) if status is not None else "None"
-        counts = {len(effects.calls(r, "self.on_error")) for r in effects.run(ctx, dom, ff, sff, argv) if r.kind == "val"}
-        if counts == {1}:
-            trig.add(status)
-        elif counts != {0}:
-            trig.add(f"?{status}:{sorted(counts)}")
-    fail_status = {emitted.get(m) for m in FAILING}
-    pass_status = {emitted.get(m) for m in PASSING}
-    ctx.check("R-FAILFAST-SET", "StreamFailFast triggers = statuses emitted for failing outcomes", ff,
-              trig == fail_status and not (trig & pass_status) and None not in fail_status,
-              f"StreamFailFast triggers on {sorted(trig)} but ExtendedToStreamDecorator emits {emitted}", construct=f"{REAL}:StreamFailFast.status::trigger-vs-emitted")
-    sf = etsd.own_method("_set_failfast")
-    ok = sf is not None and any(isinstance(c, ast.Call) and dotted(c.func) == "self.targets.append" and c.args and isinstance(c.args[0], ast.Call)
-                                and dotted(c.args[0].func) == "StreamFailFast" and c.args[0].args and dotted(c.args[0].args[0]) == "self.stop" for c in ast.walk(sf))
-    ctx.check("R-FAILFAST-SET", "stream failfast wires StreamFailFast(self.stop) into the targets", sf if sf is not None else etsd.node, ok,
-              "ExtendedToStreamDecorator.failfast = True does not add StreamFailFast(self.stop)", construct=f"{REAL}:ExtendedToStreamDecorator._set_failfast::wire")
-    tc = own_method(ctx, REAL, "TestControl", "stop")
-    ok = any(isinstance(n, ast.Assign) and dotted(n.targets[0]) == "self.shouldStop" and isinstance(n.value, ast.Constant) and n.value.value is True for n in ast.walk(tc))
-    ctx.check("R-FAILFAST-SET", "TestControl.stop sets shouldStop", tc, ok, "TestControl.stop does not set shouldStop = True", construct=f"{REAL}:TestControl.stop::sets")
-
-    # ------------------------------------------------------------------ R-CONTROL-PLUMBED
-    wrappers = {
-        "MultiTestResult": ("_results", "dispatch"),
-        "ThreadsafeForwardingResult": ("result", "attr"),
-        "ExtendedToOriginalDecorator": ("decorated", "attr"),
-        "TestResultDecorator": ("decorated", "attr"),
-        "Tagger": ("decorated", "attr"),
-    }
-
-    def reaches_wrapped(func, attr, how, member):
-        """Does func forward/read ``member`` on the wrapped result(s)?"""
-        if not isinstance(func, FUNC_TYPES):
-            return False
-        for n in ast.walk(func):
-            if how == "dispatch":
-                if isinstance(n, ast.Call) and dotted(n.func) == "self._dispatch" and n.args:
-                    a0 = str_const(n.args[0])
-                    if a0 == member or (a0 in ("__getattr__", "__setattr__", "__getattribute__") and len(n.args) > 1 and str_const(n.args[1]) == member):
-                        return True
-                if isinstance(n, ast.Call) and dotted(n.func) == "getattr" and len(n.args) >= 2 and str_const(n.args[1]) == member and "_results" in norm(n.args[0]):
-                    return True
-            else:
-                if isinstance(n, ast.Attribute) and n.attr == member and dotted(n.value) == f"self.{attr}":
-                    return True
-                if isinstance(n, ast.Call) and dotted(n.func) in ("getattr", "setattr", "hasattr") and len(n.args) >= 2 and dotted(n.args[0]) == f"self.{attr}" and str_const(n.args[1]) == member:
-                    return True
-        return False
-
-    for cname, (attr, how) in wrappers.items():
-        c = classes.get(REAL, cname)
-        # stop
-        owner, f = classes.resolve_method(c, "stop")
-        ok = False
-        if owner is not None and not owner.external and isinstance(f, FUNC_TYPES):
-            from .. import effects
-            wrapped = ("tuple", ("wobj", "w0"), ("wobj", "w1")) if how == "dispatch" else ("wobj", "w0")
-            ids = ["w0", "w1"] if how == "dispatch" else ["w0"]
-            dom = effects.EffectDomain(classes, attrs={f"self.{attr}": wrapped})
-            res_ = [r for r in effects.run(ctx, dom, f, c) if r.kind == "val"]
-            ok = bool(res_) and all([e[0] for e in effects.calls(r) if e[0].endswith(".stop")] == [f"{i}.stop" for i in ids] for r in res_)
-        ctx.check("R-CONTROL-PLUMBED", f"{cname}.stop reaches the wrapped result(s)", f if isinstance(f, FUNC_TYPES) else c.node, ok,
-                  f"{cname}.stop resolves to {owner.qual if owner else None} and does not forward to self.{attr}", construct=f"{REAL}:{cname}::stop")
-        if cname == "MultiTestResult" and isinstance(f, FUNC_TYPES):
-            d = classes.get(REAL, "MultiTestResult").own_method("_dispatch")
-            dom = effects.EffectDomain(classes, attrs={"self._results": ("tuple", ("wobj", "w0"), ("wobj", "w1"))})
-            res_ = effects.run(ctx, dom, d, c, {"message": ("const", "anyMethod"), d.args.vararg.arg if d.args.vararg else "args": ("tuple", ("arg", 0)),
-                                                 d.args.kwarg.arg if d.args.kwarg else "kwargs": ("kwdict", (("k", ("arg", "k")),))})
-            want_calls = [("w0.anyMethod", (("arg", 0),), (("k", ("arg", "k")),), "ok"), ("w1.anyMethod", (("arg", 0),), (("k", ("arg", "k")),), "ok")]
-            ok = bool(res_) and all(r.kind == "val" and effects.calls(r) == want_calls and r.value == ("tuple", ("ret", "w0", "anyMethod"), ("ret", "w1", "anyMethod")) for r in res_)  # a lazy result would be ("lazyseq", ...)
-            ctx.check("R-CONTROL-PLUMBED", "MultiTestResult._dispatch calls every wrapped result (strict)", d, ok,
-                      "_dispatch does not eagerly call the message on every element of self._results", construct=f"{REAL}:MultiTestResult._dispatch::all")
-        # shouldStop
-        powner = classes.resolve_attr_owner(c, "shouldStop")
-        ok = False
-        where = c.node
-        if powner is not None and "shouldStop" in powner.properties and not powner.external:
-            g = powner.properties["shouldStop"][0]
-            gf = powner.own_method(g.id) if isinstance(g, ast.Name) else g
-            ok = reaches_wrapped(gf, attr, how, "shouldStop")
-            where = gf if isinstance(gf, FUNC_TYPES) else c.node
-        ctx.check("R-CONTROL-PLUMBED", f"{cname}.shouldStop reads the wrapped result(s)", where, ok,
-                  f"{cname}.shouldStop does not read self.{attr}: suites would not see a stop requested on the target", construct=f"{REAL}:{cname}::shouldStop")
-        # failfast
-        powner = classes.resolve_attr_owner(c, "failfast")
-        ok = False
-        if powner is not None and "failfast" in powner.properties and not powner.external:
-            g, s = powner.properties["failfast"]
-            gf = powner.own_method(g.id) if isinstance(g, ast.Name) else g
-            sf_ = powner.own_method(s.id) if isinstance(s, ast.Name) else s
-            ok = reaches_wrapped(gf, attr, how, "failfast") and reaches_wrapped(sf_, attr, how, "failfast")
-        ctx.check("R-CONTROL-PLUMBED", f"{cname}.failfast reaches the wrapped result(s)", c.node, ok,
-                  f"{cname} has no forwarding failfast property: setting wrapper.failfast after wrapping is silently dropped, the run does not stop at the first failure",
-                  construct=f"{REAL}:{cname}::failfast")
-    # ETOD.stop falls back to its own flag when the target has no stop
-    es = own_method(ctx, REAL, "ExtendedToOriginalDecorator", "stop")
-    ok = any(isinstance(n, ast.Assign) and dotted(n.targets[0]) == "self.shouldStop" and isinstance(n.value, ast.Constant) and n.value.value is True for n in ast.walk(es))
-    ctx.check("R-CONTROL-PLUMBED", "ExtendedToOriginalDecorator.stop records the request when the target cannot", es, ok,
-              "stop() on a target without stop() is dropped", construct=f"{REAL}:ExtendedToOriginalDecorator.stop::fallback")
-
-    # ------------------------------------------------------------------ R-RUN-RESET
-    def reset_attrs(cls, meth="startTestRun", depth=0):
-        """Attributes assigned by cls.<meth> incl. super() chains and unittest's __init__."""
-        owner, f = classes.resolve_method(cls, meth)
-        out = set()
-        if not isinstance(f, FUNC_TYPES) or depth > 4:
-            return out
-        out |= instance_attrs_assigned(f)
-        for c in walk_shallow(f, include_self=False):
-            if isinstance(c, ast.Call):
-                ch = attr_chain(c.func)
-                if ch and ch[0] == "super()" and len(ch) == 2:
-                    o2, f2 = classes.resolve_method(cls, ch[1], after=owner)
-                    if isinstance(f2, FUNC_TYPES):
-                        out |= instance_attrs_assigned(f2)
-                        for c2 in walk_shallow(f2, include_self=False):
-                            if isinstance(c2, ast.Call):
-                                ch2 = attr_chain(c2.func)
-                                if ch2 and ch2[0] == "super()" and len(ch2) == 2:
-                                    o3, f3 = classes.resolve_method(cls, ch2[1], after=o2)
-                                    if isinstance(f3, FUNC_TYPES):
-                                        out |= instance_attrs_assigned(f3)
-        return out
-
-    for cname, handler_names in (("TestResult", sorted(FAILING | PASSING)), ("StreamSummary", ["_fail", "_incomplete", "_uxsuccess", "_xfail", "_skip", "_success", "_exists"])):
-        c = classes.get(REAL, cname)
-        appended = set()
-        for h in handler_names:
-            f = c.own_method(h)
-            if f is not None:
-                appended |= self_lists_appended(f)
-        if cname == "StreamSummary":
-            g = c.own_method("_gather_test")
-            for n in ast.walk(g):
-                if isinstance(n, ast.AugAssign) and dotted(n.target) and dotted(n.target).startswith("self."):
-                    appended.add(dotted(n.target).split(".", 1)[1])
-        if cname == "TestResult":
-            # run state also lives in plain attributes: what stop() and startTest() write
-            # (shouldStop, testsRun, ... -- through the MRO, unittest's source included)
-            for h in ("stop", "startTest"):
-                owner, f = classes.resolve_method(c, h)
-                seen_f = set()
-                while isinstance(f, FUNC_TYPES) and id(f) not in seen_f:
-                    seen_f.add(id(f))
-                    for n in ast.walk(f):
-                        tgt = None
-                        if isinstance(n, ast.Assign) and len(n.targets) == 1:
-                            tgt = n.targets[0]
-                        elif isinstance(n, ast.AugAssign):
-                            tgt = n.target
-                        ch = attr_chain(tgt) if tgt is not None else None
-                        if ch and ch[0] == "self" and len(ch) == 2 and not ch[1].startswith("_"):
-                            appended.add(ch[1])
-                    sup_calls = [x for x in walk_shallow(f, include_self=False) if isinstance(x, ast.Call) and attr_chain(x.func) and attr_chain(x.func)[0] == "super()" and attr_chain(x.func)[-1] == h]
-                    if not sup_calls:
-                        break
-                    owner, f = classes.resolve_method(c, h, after=owner)
-        reset = reset_attrs(c)
-        for a in sorted(appended):
-            ctx.check("R-RUN-RESET", f"{cname}.startTestRun re-initialises self.{a}", c.own_method("startTestRun") or c.node, a in reset,
-                      f"run state is kept in self.{a} (written by outcomes, stop() or startTest()) but startTestRun does not reset it: a second run on the same result object starts from the first run's state",
-                      construct=f"{REAL}:{cname}.startTestRun::reset {a}")
-    ctx.floor("R-RUN-RESET", 10)
-    tr = classes.get(REAL, "TestResult")
-    st = own_method(ctx, REAL, "TestResult", "startTestRun")
-    scfg = cfg_of(ctx, st)
-    slive = live_nodes(scfg)
-    sup = nodes_calling(scfg, lambda c: dotted(c.func) == "super().__init__", slive)
-    for opt in ("failfast", "tb_locals"):
-        saves = [n.id for n in scfg.nodes if n.id in slive and n.kind == "stmt" and isinstance(n.ast, ast.Assign) and dotted(n.ast.value) == f"self.{opt}" and isinstance(n.ast.targets[0], ast.Name)]
-        rest = [n.id for n in scfg.nodes if n.id in slive and n.kind == "stmt" and isinstance(n.ast, ast.Assign) and dotted(n.ast.targets[0]) == f"self.{opt}" and isinstance(n.ast.value, ast.Name)]
-        own_assigned = opt in instance_attrs_assigned(st)
-        chain_assigned = opt in (reset_attrs(tr) - instance_attrs_assigned(st)) or (bool(sup) and opt in reset_attrs(tr))
-        if not sup or not chain_assigned:
-            # nothing startTestRun calls re-initialises the option; its own assignments (if any) must write back a saved copy
-            ok = not own_assigned or (bool(saves) and bool(rest) and len(rest) == sum(1 for n in scfg.nodes if n.id in slive and n.kind == "stmt" and isinstance(n.ast, ast.Assign) and dotted(n.ast.targets[0]) == f"self.{opt}")
-                                      and all(scfg.nodes[r].ast.value.id == scfg.nodes[saves[0]].ast.targets[0].id and scfg.dominated_by(r, set(saves)) for r in rest))
-        else:
-            ok = bool(sup) and bool(saves) and bool(rest) and scfg.dominated_by(sup[0], set(saves)) and scfg.escape_path(scfg.after(sup[0]), set(rest), targets=[scfg.exit_return]) is None
-            if ok:
-                sv = scfg.nodes[saves[0]].ast.targets[0].id
-                ok = scfg.nodes[rest[0]].ast.value.id == sv
-        ctx.check("R-RUN-RESET", f"TestResult.startTestRun preserves {opt}", st, ok,
-                  f"startTestRun re-initialises {opt} (through the base-class constructor) without saving it before and restoring it afterwards", construct=f"{REAL}:TestResult.startTestRun::keep {opt}")
-    init = own_method(ctx, REAL, "TestResult", "__init__")
-    ok = bool(calls_named(init, "TestResult.startTestRun")) or bool(calls_named(init, "self.startTestRun"))
-    ctx.check("R-RUN-RESET", "TestResult.__init__ goes through startTestRun", init, ok, "constructor no longer initialises through startTestRun", construct=f"{REAL}:TestResult.__init__::start")
-    ctx.assume("unittest.TestResult.__init__ (parsed, not run) initialises failures/errors/testsRun/skipped/shouldStop as its source says")
+    ctx.rule("R-RUN-RESET", "startTestRun re-initialises verdict, collections and stop flag; failfast survives")
+    tr = ctx.classes.get(REAL, "TestResult")
+    if tr is None:
+        raise AnalysisError("anchor vanished: testtools.testresult.real.TestResult")
+    check_verdicts(ctx, tr.node)
+    check_failfast(ctx, tr.node)
+    check_stop(ctx, tr.node)
+    check_reset(ctx, tr.node)
+    check_more(ctx, tr.node)
+    check_summary(ctx, ctx.classes.get(REAL, "TextTestResult").node)
+    check_exit_status(ctx)
